@@ -202,8 +202,11 @@ SeqTerms ==
 SubclassTerms == {SubclassT(Typed(c)) : c \in {"int", "bool", "str", "A", "B", "object"}}
 UnionTerms == {Union(<<a, b>>) : a \in Small, b \in Small} \ {Union(<<a, a>>) : a \in Small}
 
+\* a literal union with more than ten members (MultiValuedValue switches to a set-based fast path at 10 members)
+BigLiteral == Union(<<Known(I0), Known(I1), Known(BT), Known(BF), Known(F15), Known(SA), Known(SE), Known(NONE), Known(RED),
+                      Known(GREEN), Known(Obj("int", "2")), Known(Obj("str", "ab"))>>)
 D1Static == TypedAtoms \cup KnownAtoms \cup GenericTerms \cup SeqTerms \cup SubclassTerms \cup UnionTerms
-            \cup {NewType("N", "int"), Never}
+            \cup {NewType("N", "int"), Never, BigLiteral}
 D1 == D1Static \cup {AnyT}
 
 \* depth-2 terms: containers/unions over depth-1 composites (used by simulation / thorough runs)
